@@ -21,7 +21,7 @@ PROP = 'C03'
 LEVEL = 'exploration'
 RULE = ('Pool of valid version strings from structured generators (leading zeros, ~ chains, ~ at end, '
         'letters vs +/./-, digit/non-digit misalignment, epoch 0/absent/00, revision absent/0; plus ~90 versions with digit runs of '
-        '9..31 digits, with and without leading zeros, in upstream / revision / epoch); every ordered '
+        '9..31 digits, with and without leading zeros, in upstream / revision / epoch, and 6 with runs of 4300..5000 digits); every ordered '
         'pair of the pool is compared with all operators; plus objects that were compared and hashed and then given another '
         'pool value (full_version or component assignments) and compared again.  A pair is non-trivial when the two strings differ '
         'and share a common prefix of >= 1 character (decided inside the algorithm, not on the first character).')
@@ -105,6 +105,8 @@ def long_digit_runs():
     for k in (8, 17, 18, 19, 25):
         out.append('0' * k + '1:1')
         out.append('0' * k + ':1')
+    # beyond the interpreter's own limit for str <-> int conversion (4300 digits by default since 3.11)
+    out += ['1.' + '7' * 4300, '1.' + '7' * 4301, '1.000' + '7' * 4301, '1.' + '7' * 4300 + '8', '2:1-' + '9' * 5000, '1-' + '0' * 4400 + '5']
     return out
 
 
@@ -176,7 +178,14 @@ def check_pair(ctx, a, b, va, vb):
         ctx.count('pair:long-digit-run')
         if is_long_run(a) and is_long_run(b):
             ctx.count('pair:long-digit-run-both')
-    got = ds.version_compare(a, b)
+    try:
+        got = ds.version_compare(a, b)
+    except ValueError as e:
+        if 'Exceeds the limit' in str(e):
+            ctx.violation('comparison-raises-on-digit-run-beyond-the-int-conversion-limit',
+                          'version_compare(%r..., %r...) raised %r; dpkg compares digit runs of any length' % (a[:40], b[:40], e), small)
+            return
+        raise
     if sgn(got) != ref:
         ctx.violation('order-disagrees-with-dpkg', 'version_compare(%r,%r)=%r, dpkg order says %d' % (a, b, got, ref), small)
         return
